@@ -1115,6 +1115,11 @@ class IRef:
             elif not op.get('renormalize', False):
                 self.norm = self.norm * fac
         elif t == 'canonical_form':
+            if getattr(self, 'approx', False) and not op.get('renormalize', True):
+                # after a truncation the stored tensors (from which this reference was re-seeded) are not exactly normalised:
+                # canonical_form(renormalize=False) moves their norm per unit cell into psi.norm
+                self.norm = self.norm * np.sqrt(abs(self.tm().eta))
+                self._tm = None
             self.approx = False
             if getattr(self, 'pending', None) is not None:
                 if not op.get('renormalize', True):
